@@ -7,13 +7,13 @@ func init() {
 		NotCovered: "the modular and IEEE-754 results themselves (delegated to Go's sized arithmetic; they depend on operand values), overflow at conversion boundaries.",
 	}
 	props["C08"] = &PropSpec{
-		Rules:      []string{"ops/typedguard"},
-		Decides:    "that each specialised opcode the compiler chooses from static types (under IsSubtype(_, Std::Int / Std::Float)) is executed by a handler that reads the operand with the accessors of exactly those representations; otherwise the specialised path reinterprets the operand's bits and disagrees with the generic path.",
+		Rules:      []string{"ops/typedguard", "ops/token-family"},
+		Decides:    "that no emission site of the compiler that knows which operator it is compiling (a test of the operator token is in scope) emits an opcode the compiler's own operator table assigns to a different operator; that each specialised opcode the compiler chooses from static types (under IsSubtype(_, Std::Int / Std::Float)) is executed by a handler that reads the operand with the accessors of exactly those representations; otherwise the specialised path reinterprets the operand's bits and disagrees with the generic path.",
 		NotCovered: "equality of results where generic and specialised paths legitimately call different functions; constant folding versus run-time evaluation; statically bound versus dynamically resolved calls.",
 	}
 	props["C05"] = &PropSpec{
-		Rules:      []string{"prec/ladder", "cover/astprint", "cover/astequal"},
-		Decides:    "(a) the printer's precedence table orders the binary/logical operators and operator-like node kinds exactly as the parser's production ladder does (equal within a rung, strictly increasing from rung to rung), so no tree is printed without parentheses the parser needs; (b) every node's String method reads every syntactic field, so two different trees cannot print alike; every node's Equal compares every syntactic field.",
+		Rules:      []string{"prec/ladder", "prec/assoc", "cover/astprint", "cover/astequal"},
+		Decides:    "(a) the printer's precedence table orders the binary/logical operators and operator-like node kinds exactly as the parser's production ladder does (equal within a rung, strictly increasing from rung to rung), so no tree is printed without parentheses the parser needs, and the printer's associativity table says left for every operator whose production folds in a loop and right for every operator whose production recurses into itself; (b) every node's String method reads every syntactic field, so two different trees cannot print alike; every node's Equal compares every syntactic field.",
 		NotCovered: "that the concrete text each printer emits is what the parser accepts for that node; type and pattern precedence tables; associativity choices that only produce redundant parentheses.",
 	}
 	props["C31"] = &PropSpec{
@@ -22,13 +22,13 @@ func init() {
 		NotCovered: "capture-freedom under colliding names (scope handling of macro boundaries in checker and compiler); that expansion results are wrapped in macro boundary nodes.",
 	}
 	props["C33"] = &PropSpec{
-		Rules:      []string{"path/abort-before-backedge", "cover/flagprop"},
-		Decides:    "that every user-level loop the compiler emits has a cancellation point on its back edge when abort checks are requested (each emitLoop site is preceded by the CHECK_ABORT guard; two bounded internal loops are reasoned exceptions), and that the request reaches every nested compiler (methods, closures, defers, class/module/mixin/interface/singleton bodies inherit additionalAbortChecks and the diagnostic list from their parent).",
+		Rules:      []string{"path/abort-before-backedge", "cover/flagprop", "path/ctx-blocking"},
+		Decides:    "that the context-aware variants of the blocking channel operations really are interruptible (every channel send/receive in a function taking a context is an arm of a select that also receives from ctx.Done(), and none delegates to the bare blocking sibling); that every user-level loop the compiler emits has a cancellation point on its back edge when abort checks are requested (each emitLoop site is preceded by the CHECK_ABORT guard; two bounded internal loops are reasoned exceptions), and that the request reaches every nested compiler (methods, closures, defers, class/module/mixin/interface/singleton bodies inherit additionalAbortChecks and the diagnostic list from their parent).",
 		NotCovered: "promptness (timing); native methods that block without watching the thread's abort context (sleep, Mutex#lock, WaitGroup#wait, channel iteration): candidates located by reading, not armed.",
 	}
 	props["C12"] = &PropSpec{
-		Rules:      []string{"path/savedrestore-checker"},
-		Decides:    "that checker and compiler context (mode, flags, catch scopes, return/throw type, ...) which a function saves, changes and restores is restored on every exit path, and that a function bracketing several fields does not reset a sibling field to a constant instead; a leak is exactly how an unused nested construct (a closure literal, a failed compatibility check) changes the verdict on the code that follows it.",
+		Rules:      []string{"path/savedrestore-checker", "path/snapshot-first", "path/setter-restore", "cache/invalidate"},
+		Decides:    "that checker and compiler context (mode, flags, catch scopes, return/throw type, ...) which a function saves, changes and restores is restored on every exit path, from a snapshot that really is the value on entry (nothing has written the field before the snapshot is taken), that a function bracketing several fields does not reset a sibling field to a constant instead, that a part of a field set through a setter (one bit of the flags) is put back through the same setter when the whole field is not restored, and that memoised copies of the scope stacks are dropped when the stacks are swapped; a leak is exactly how an unused nested construct (a closure literal, a failed compatibility check) changes the verdict on the code that follows it.",
 		NotCovered: "renaming, parenthesisation, reordering of declarations: relations between two whole checker runs.",
 	}
 	props["C34"] = &PropSpec{
@@ -99,8 +99,8 @@ func init() {
 		NotCovered: "termination (a progress measure over run-time token streams), index-out-of-range and nil dereferences whose guard depends on run-time values, the narrow node switches whose operand set is determined by one grammar production (counted in the evidence, not decided), the macro and regex front ends beyond rule 1.",
 	}
 	props["C27"] = &PropSpec{
-		Rules:      []string{"cover/deepcopy", "repl/snapshot-restore"},
-		Decides:    "the rollback half of the property (a rejected input leaves no trace) at the level of record fields: every DeepCopyEnv method of the type environment writes every field of the copy it returns (or the field is read nowhere, or it is rebuilt by the registerAsChild protocol), and the checker's REPL entry point stores back every snapshot it took, on every path, when the input is rejected.",
+		Rules:      []string{"cover/deepcopy", "repl/snapshot-restore", "cache/invalidate"},
+		Decides:    "the rollback half of the property (a rejected input leaves no trace) at the level of record fields: every DeepCopyEnv method of the type environment writes every field of the copy it returns (or the field is read nowhere, or it is rebuilt by the registerAsChild protocol), and the checker's REPL entry point stores back every snapshot it took, on every path, when the input is rejected, and drops the memoised copies of the scope stacks it replaces.",
 		NotCovered: "that the deep copies are deep enough (aliasing between the live environment and the snapshot through shared maps or slices), the VM side of a session (persistent stack, globals after a runtime error), and equality of incremental and batch output in general: relations over input histories.",
 	}
 }
